@@ -199,7 +199,7 @@ def perfect_case(rng, kind, big, nsend=1, rmax=NOLIM, level=0):
         mtu = rng.choice([64, 100, 200, 300, 400])
     m = eff_mtu(kind, mtu)
     ops = []
-    addrs = rng.sample(range(1, 500), nsend)
+    addrs = related_addrs(rng, nsend)
     for i in range(nsend):
         ops.append("S:%d:%d:%d:%d:%d:%d" % (i, addrs[i], mtu, magic, rng.choice([0, 0, 9]), level))
         if rng.random() < 0.3:
@@ -236,6 +236,21 @@ def perfect_case(rng, kind, big, nsend=1, rmax=NOLIM, level=0):
     return head(kind, mode, mtu, magic, rng.choice([0, 0, 5]), rmax, 0) + "|" + ";".join(ops)
 
 
+def related_addrs(rng, n):
+    """n distinct source addresses.  The harness maps address a to host a//4, port a%4: sockets of ONE host (same IP,
+    different ports), the same port on different hosts, or unrelated."""
+    r = rng.random()
+    base = 4 * rng.randrange(1, 60)
+    if r < 0.45:                                  # same IP, different ports
+        return rng.sample([base, base + 1, base + 2, base + 3], n)
+    if r < 0.65:                                  # same port, different IPs
+        k = rng.randrange(4)
+        return [base + k + 4 * i for i in rng.sample(range(0, 5), n)]
+    if r < 0.8:                                   # a mix: two sockets of one host and one of the neighbour host
+        return rng.sample([base, base + 1, base + 4, base + 5, base + 2], n)
+    return rng.sample(range(1, 400), n)
+
+
 def multi_case(rng, kind, big):
     """two or three senders; sometimes sharing a source address, sometimes packets arriving from another address"""
     mode = rng.choice("RRB")
@@ -244,7 +259,7 @@ def multi_case(rng, kind, big):
     m = eff_mtu(kind, mtu)
     ns = rng.choice([2, 2, 3])
     share = rng.random() < 0.3
-    addrs = [7] * ns if share else rng.sample(range(1, 50), ns)
+    addrs = [7] * ns if share else related_addrs(rng, ns)
     ops = []
     total = 0
     same = payload(rng, rng.choice(size_choices(rng, kind, m, mode, big)), "rand")
@@ -262,10 +277,38 @@ def multi_case(rng, kind, big):
     seq = network(rng, total, rng.choice(["shuffle", "chaos", "perfect", "swap", "drop"]))
     for j in seq:
         if rng.random() < 0.15:
-            ops.append("E:%d:%d" % (j, rng.choice(addrs + [99])))
+            ops.append("E:%d:%d" % (j, rng.choice(addrs + [99, addrs[0] ^ 1, addrs[0] + 4])))
         else:
             ops.append("D:%d" % j)
     return head(kind, mode, mtu, magic) + "|" + ";".join(ops)
+
+
+def samehost_case(rng, kind, big):
+    """two or three FRESH senders (all start at message id 0) on related source addresses -- typically sockets of one host --
+    sending multi-packet Messages of EQUAL size, their packets written alternately (one DoOutput = one packet), so the
+    in-order network interleaves their fragments; then either that perfect network or a faulty one"""
+    mode = rng.choice("RRB")
+    magic = PMAGIC if kind == "P" else NMAGIC
+    mtu = rng.choice([25, 26, 30, 40, 64]) if kind == "P" else rng.choice([20, 30, 40])
+    m = eff_mtu(kind, mtu)
+    ns = rng.choice([2, 2, 3])
+    addrs = related_addrs(rng, ns)
+    r = max(1, m - FHS) if kind == "P" else max(1, m - PHS - CHS)
+    size = rng.choice([r + 1, 2 * r, 2 * r + 1, 3 * r]) if kind == "P" else rng.choice([1, r // 2, r])
+    nmsg = rng.choice([1, 1, 2])
+    ops = []
+    for i in range(ns):
+        ops.append("S:%d:%d:%d:%d:0:0" % (i, addrs[i], mtu, magic))
+        for k in range(nmsg):
+            b = bytes([(0x61 + i + 16 * k) & 255]) * size        # aaaa.., bbbb.., cccc..: a splice is visible at a glance
+            ops.append("A:%d:%s" % (i, b.hex()))
+    per = sim_packets(kind, m, [size] * nmsg)
+    for _ in range(per + 1):
+        for i in range(ns):
+            ops.append("O:%d:%d:1" % (i, NOLIM))
+    total = per * ns
+    pat = rng.choice(["perfect", "perfect", "perfect", "drop1", "drop", "swap", "shuffle", "chaos"])
+    return pat, head(kind, mode, mtu, magic) + "|" + ";".join(ops + ["D:%d" % j for j in network(rng, total, pat)])
 
 
 def forged_case(rng, kind, big):
@@ -490,6 +533,12 @@ DIRECTED = [
     ("directed", "P,B,30,%d,0,%d,0|S:0:5:30:%d:0:0;A:0:;A:0:0102;A:0:;A:0:;O:0:%d:%d;D:0;D:0;D:1;D:1" % (PMAGIC, NOLIM, PMAGIC, NOLIM, BIG)),
     ("directed", "N,B,30,%d,0,%d,0|S:0:5:30:%d:0:0;A:0:;A:0:0102;A:0:;A:0:;O:0:%d:%d;D:0;D:0;D:1" % (NMAGIC, NOLIM, NMAGIC, NOLIM, BIG)),
     ("directed", "N,B,60,%d,0,%d,0|S:0:5:60:%d:0:5;A:0:;A:0:;A:0:;A:0:;A:0:;A:0:;A:0:;A:0:;O:0:%d:%d;D:0;D:0" % (NMAGIC, NOLIM, NMAGIC, NOLIM, BIG)),
+    # two fresh senders on ONE host (addresses 8 and 9 = same IP, ports 4000/4001), equal-size two-packet Messages with id 0:
+    # A's head then B's tail must not splice; interleaved in order both must arrive
+    ("directed", "P,R,30,%d,0,%d,0|S:0:8:30:%d:0:0;S:1:9:30:%d:0:0;A:0:616161616161616161;A:1:626262626262626262;O:0:%d:%d;O:1:%d:%d;D:0;D:3" % (PMAGIC, NOLIM, PMAGIC, PMAGIC, NOLIM, BIG, NOLIM, BIG)),
+    ("directed", "P,R,30,%d,0,%d,0|S:0:8:30:%d:0:0;S:1:9:30:%d:0:0;A:0:616161616161616161;A:1:626262626262626262;O:0:%d:1;O:1:%d:1;O:0:%d:1;O:1:%d:1;D:0;D:1;D:2;D:3" % (PMAGIC, NOLIM, PMAGIC, PMAGIC, NOLIM, NOLIM, NOLIM, NOLIM)),
+    # same port on two hosts (addresses 8 and 12)
+    ("directed", "P,R,30,%d,0,%d,0|S:0:8:30:%d:0:0;S:1:12:30:%d:0:0;A:0:616161616161616161;A:1:626262626262626262;O:0:%d:1;O:1:%d:1;O:0:%d:1;O:1:%d:1;D:0;D:1;D:2;D:3;D:0;D:3" % (PMAGIC, NOLIM, PMAGIC, PMAGIC, NOLIM, NOLIM, NOLIM, NOLIM)),
     # receiver with a smaller MTU truncates what it reads
     ("directed", "P,R,30,%d,0,%d,0|S:0:5:100:%d:0:0;A:0:%s;A:0:0304;O:0:%d:%d;D:0" % (PMAGIC, NOLIM, PMAGIC, "66" * 20, NOLIM, BIG)),
     ("directed", "N,R,20,%d,0,%d,0|S:0:5:100:%d:0:0;A:0:0102;A:0:%s;A:0:0304;O:0:%d:%d;D:0" % (NMAGIC, NOLIM, NMAGIC, "66" * 20, NOLIM, BIG)),
@@ -555,6 +604,12 @@ class CHECK(vlib.Check):
             out.append(("P-perfect-limit", perfect_case(rng, "P", big, nsend=rng.choice([1, 2]), rmax=rng.choice([1, 6, 12, 20, 34, 50, 100]))))
         for _ in range(rep(250)):
             out.append(("P-multi", multi_case(rng, "P", big)))
+        for _ in range(rep(200)):
+            pat, c = samehost_case(rng, "P", big)
+            out.append(("P-samehost/" + pat, c))
+        for _ in range(rep(60)):
+            pat, c = samehost_case(rng, "N", big)
+            out.append(("N-samehost/" + pat, c))
         for _ in range(rep(200)):
             out.append(("P-foreign", forged_case(rng, "P", big)))
         for many in ([257, 258, 260] if q else [256, 257, 258, 259, 260, 300, 515]):
